@@ -3,6 +3,8 @@ package uhppote
 
 import (
 	"os"
+	"sync"
+	"time"
 
 	"github.com/uhppoted/uhppote-core/types"
 )
@@ -19,9 +21,25 @@ type c10Rec struct {
 	snap types.Status
 }
 
+// (natively the event callback runs in the dispatch goroutine and the error callback in the receive loop)
 type c10Listener struct {
+	mu        sync.Mutex
 	connected int
 	log       []c10Rec
+}
+
+func (l *c10Listener) count() int {
+	l.mu.Lock()
+	defer l.mu.Unlock()
+	return len(l.log)
+}
+
+// settle: wait (natively, at most two seconds) until the callback for datagram i has been recorded, so that the
+// record order is the datagram order; under the engine's schedule it already has
+func (l *c10Listener) settle(i int) {
+	for tries := 0; l.count() <= i && tries < 200; tries++ {
+		time.Sleep(10 * time.Millisecond)
+	}
 }
 
 func c10Copy(s *types.Status) types.Status {
@@ -39,9 +57,13 @@ func c10Copy(s *types.Status) types.Status {
 
 func (l *c10Listener) OnConnected() { l.connected++ }
 func (l *c10Listener) OnEvent(s *types.Status) {
+	l.mu.Lock()
+	defer l.mu.Unlock()
 	l.log = append(l.log, c10Rec{kind: 'E', st: s, snap: c10Copy(s)})
 }
 func (l *c10Listener) OnError(error) bool {
+	l.mu.Lock()
+	defer l.mu.Unlock()
 	l.log = append(l.log, c10Rec{kind: 'X'})
 	return true
 }
@@ -90,6 +112,7 @@ func c10Listen(k int) {
 	d := &vDriver{events: dgs, async: true}
 	u := vClient(d)
 	l := &c10Listener{}
+	d.settle = l.settle
 	q := make(chan os.Signal, 1)
 	q <- os.Interrupt
 	err := u.Listen(l, q)
